@@ -167,7 +167,7 @@ fn parse_request(line: &str) -> Option<(Option<Url>, String)> {
     } else {
         let ser = w[3].split(',').next()?;
         let bytes = verif_harness::unhexb(ser);
-        Some(Url::parse(std::str::from_utf8(&bytes).ok()?).ok()?)
+        Some(impl_parse(None, std::str::from_utf8(&bytes).ok()?).1?)
     };
     Some((base, unhexs(w[4])))
 }
@@ -182,7 +182,7 @@ fn parse_streams(args: &Args, search: bool) -> Report {
     for l in corpus.lines().filter(|l| l.starts_with("parse ")) {
         let w: Vec<&str> = l.split(' ').collect();
         if w.len() == 3 {
-            let base = if w[1] == "~" { None } else { Url::parse(&unhexs(w[1])).ok() };
+            let base = if w[1] == "~" { None } else { impl_parse(None, &unhexs(w[1])).1 };
             px.one("parse-corpus", base.as_ref(), &unhexs(w[2]));
         }
     }
@@ -202,7 +202,7 @@ fn parse_streams(args: &Args, search: bool) -> Report {
     for s in ["http://h", "http://u@h:81/p/q/?a=b#c", "a://host//x", "a:/x", "a:///x", "a://h:80/", "foo://", "file://h/", "a:b c ", "a:b #f", "a:/..//x", "ws://h/a/../b"] {
         px.one("parse-pool", None, s);
     }
-    let mut bases: Vec<Url> = base_pool().iter().filter_map(|s| Url::parse(s).ok()).collect();
+    let mut bases: Vec<Url> = base_pool().iter().filter_map(|s| impl_parse(None, s).1).collect();
     for s in base_pool() {
         px.one("parse-pool", None, s);
     }
